@@ -145,6 +145,85 @@ impl Signal {
     }
 }
 
+/// Public wrappers around the crate-private task primitives, for the
+/// verification harnesses (only compiled with `--cfg nexosim_verif`).
+#[cfg(nexosim_verif)]
+#[allow(missing_docs, missing_debug_implementations, unreachable_pub)]
+pub mod verif_exports {
+    use std::future::Future;
+
+    use super::task::{self, CancelToken, Promise, Runnable, Stage};
+
+    pub struct VRunnable(Runnable);
+    impl VRunnable {
+        /// Polls the task's future.
+        pub fn run(self) {
+            self.0.run()
+        }
+    }
+
+    #[derive(Debug, PartialEq, Eq)]
+    pub enum VStage<T> {
+        Ready(T),
+        Pending,
+        Cancelled,
+    }
+
+    pub struct VPromise<T: Send + 'static>(Promise<T>);
+    impl<T: Send + 'static> VPromise<T> {
+        pub fn poll(&self) -> VStage<T> {
+            match self.0.poll() {
+                Stage::Ready(t) => VStage::Ready(t),
+                Stage::Pending => VStage::Pending,
+                Stage::Cancelled => VStage::Cancelled,
+            }
+        }
+    }
+
+    pub struct VCancelToken(CancelToken);
+    impl VCancelToken {
+        pub fn cancel(self) {
+            self.0.cancel()
+        }
+    }
+
+    /// Spawns a task with the real task state machine; `schedule` receives the
+    /// `Runnable` each time the task must be polled.
+    pub fn spawn<F>(
+        future: F,
+        schedule: fn(VRunnable, usize),
+        tag: usize,
+    ) -> (VPromise<F::Output>, VRunnable, VCancelToken)
+    where
+        F: Future + Send + 'static,
+        F::Output: Send + 'static,
+    {
+        let (promise, runnable, cancel_token) =
+            task::spawn(future, move |r, t| schedule(VRunnable(r), t), tag);
+
+        (
+            VPromise(promise),
+            VRunnable(runnable),
+            VCancelToken(cancel_token),
+        )
+    }
+
+    pub fn spawn_and_forget<F>(
+        future: F,
+        schedule: fn(VRunnable, usize),
+        tag: usize,
+    ) -> (VRunnable, VCancelToken)
+    where
+        F: Future + Send + 'static,
+        F::Output: Send + 'static,
+    {
+        let (runnable, cancel_token) =
+            task::spawn_and_forget(future, move |r, t| schedule(VRunnable(r), t), tag);
+
+        (VRunnable(runnable), VCancelToken(cancel_token))
+    }
+}
+
 #[cfg(all(test, not(nexosim_loom)))]
 mod tests {
     use std::sync::atomic::Ordering;
